@@ -285,6 +285,9 @@ density_sketch<T, K, A> density_sketch<T, K, A>::deserialize(std::istream& is, c
 
   const auto num_retained = read<uint32_t>(is);
   const auto n = read<uint64_t>(is);
+  if (!is.good()) throw std::runtime_error("error reading from std::istream");
+  if (num_retained == 0)
+    throw std::invalid_argument("Possible corruption. Non-empty sketch with no retained items");
 
   // levels arrays
   size_t pt_size = sizeof(T) * dim;
@@ -345,6 +348,8 @@ density_sketch<T, K, A> density_sketch<T, K, A>::deserialize(const void* bytes, 
   ptr += copy_from_mem(ptr, num_retained);
   uint64_t n;
   ptr += copy_from_mem(ptr, n);
+  if (num_retained == 0)
+    throw std::invalid_argument("Possible corruption. Non-empty sketch with no retained items");
 
   // Predicting the number of levels seems hard so determining the exact remaining
   // size is also hard. But we need at least num_retained * dim * sizeof(T)
